@@ -794,3 +794,100 @@ def slice_patterns(body, local, field=None):
 
     walk_tree(0, None, {}, 0)
     return out
+
+
+def all_slice_words(body):
+    """Like slice_patterns, but for every byte slice matched in the body: returns
+    {(word, leaf block)} for each slice place whose length and bytes are all fixed on a path."""
+    out = set()
+    seen = set()
+    sym = Sym(body)
+
+    def pkey(pl):
+        projs = tuple((p[0], p[1]) if p[0] in ("f", "dc") else (p[0],) for p in pl["p"] if p[0] not in ("ci", "i"))
+        while projs and projs[-1] == ("d",):
+            projs = projs[:-1]
+        return (pl["l"], projs)
+
+    def len_place(op):
+        pl = op.get("c") or op.get("m")
+        if not pl or pl["p"]:
+            return None
+        cur = pl["l"]
+        for _ in range(6):
+            ds = [d for d in body.defs().get(cur, []) if d[2] == "assign"]
+            if len(ds) != 1:
+                return None
+            rv = ds[0][3]["rv"]
+            if rv["r"] == "un" and rv["uop"] == "PtrMetadata":
+                p2 = rv["a"].get("c") or rv["a"].get("m")
+                if p2 is None:
+                    return None
+                if not p2["p"]:
+                    ds2 = [d for d in body.defs().get(p2["l"], []) if d[2] == "assign"]
+                    if len(ds2) == 1 and ds2[0][3]["rv"]["r"] in ("rawptr", "ref"):
+                        return ds2[0][3]["rv"]["pl"]
+                return p2
+            if rv["r"] == "use":
+                p2 = rv["op"].get("c") or rv["op"].get("m")
+                if p2 is None or p2["p"]:
+                    return None
+                cur = p2["l"]
+                continue
+            return None
+        return None
+
+    started = [False]
+
+    def walk_tree(bb, lens, known, depth):
+        key = (bb, tuple(sorted(lens.items())), tuple(sorted(known.items())))
+        if key in seen or depth > 800 or len(seen) > 200000:
+            return
+        seen.add(key)
+        blk = body.blocks[bb]
+        t = blk["term"]
+        if t["t"] in ("goto", "call", "drop") and t.get("target") is not None and (not started[0] or (t["t"] == "goto" and not blk["stmts"])):
+            return walk_tree(t["target"], lens, known, depth + 1)
+        if t["t"] == "switch":
+            op = t["discr"]
+            pl = op.get("c") or op.get("m")
+            if pl and not pl["p"] and t.get("dty") == "bool":
+                ds = [d for d in body.defs().get(pl["l"], []) if d[2] == "assign"]
+                if len(ds) == 1 and ds[0][3]["rv"]["r"] == "bin" and ds[0][3]["rv"]["bop"] in ("Eq", "Ne"):
+                    rv = ds[0][3]["rv"]
+                    ca, cb = strip(sym.operand(rv["a"])), strip(sym.operand(rv["b"]))
+                    k, lp = None, None
+                    if cb[0] == "const":
+                        k, lp = cb[1], len_place(rv["a"])
+                    elif ca[0] == "const":
+                        k, lp = ca[1], len_place(rv["b"])
+                    e = switch_bool_edges(body, bb)
+                    if k is not None and lp is not None and e:
+                        started[0] = True
+                        eq_t = e[1] if rv["bop"] == "Eq" else e[0]
+                        ne_t = e[0] if rv["bop"] == "Eq" else e[1]
+                        l2 = dict(lens)
+                        l2[pkey(lp)] = k
+                        walk_tree(eq_t, l2, dict(known), depth + 1)
+                        walk_tree(ne_t, dict(lens), dict(known), depth + 1)
+                        return
+            if pl and pl["p"] and pl["p"][-1][0] == "ci" and not pl["p"][-1][3] and t.get("dty") == "u8":
+                started[0] = True
+                idx = pl["p"][-1][1]
+                pk = pkey(pl)
+                for v, tb in t["targets"]:
+                    k2 = dict(known)
+                    k2[(pk, idx)] = v
+                    walk_tree(tb, dict(lens), k2, depth + 1)
+                walk_tree(t["otherwise"], dict(lens), dict(known), depth + 1)
+                return
+            if not started[0] or strip(sym.operand(op))[0] == "discr":
+                for v, tb in body.switch_edges(bb):
+                    walk_tree(tb, dict(lens), dict(known), depth + 1)
+                return
+        for pk, L in lens.items():
+            if all((pk, i) in known for i in range(L)):
+                out.add((bytes(known[(pk, i)] for i in range(L)), bb))
+
+    walk_tree(0, {}, {}, 0)
+    return out
